@@ -1,6 +1,7 @@
 import Frp.Model.Backoff
 import Frp.Model.Watchdog
 import Frp.Model.Reconnect
+import Frp.Props.C14Heal
 /-
   C14 — Dead peers are detected and tunnels heal themselves (partial: wall-clock behaviour and
   goroutine scheduling are sampled by the `wait` engine, not proved).
@@ -11,6 +12,10 @@ import Frp.Model.Reconnect
   Part B: heartbeat watchdogs (server/control.go, client/control.go): silence longer than the
           timeout is detected at the first check after it; a fed watchdog never fires; invalid
           pings do not count; a pong with error closes; defaults / disabling.
+  Part C: the two nested login loops of client/service.go (pacing of re-logins).
+  Parts D, E (Frp/Props/C14Heal.lean): the end of a server session releases everything the session
+          registered, for every interleaving, registrations in flight included; a (re-)login registers
+          the configuration in force when it succeeds, for every history of reloads and outages.
 -/
 namespace Frp
 namespace C14
@@ -894,8 +899,8 @@ theorem outer_started_stays (s : Reconnect.St) (now : Nat) (e : Reconnect.Ev) (d
     | none => rw [ho] at h; cases h
     | some mp => obtain ⟨m, p⟩ := mp; simp [Reconnect.step, ho]
 
-/-- a successful login (re)sends the whole configuration: `loginFunc` runs `ctl.Run(proxyCfgs, visitorCfgs)` -/
-theorem login_registers (s : Reconnect.St) : (Reconnect.loginOk s).registered = true := rfl
+-- WHICH configuration a successful login (re)sends is Part E (Frp/Props/C14Heal.lean): `healed_run`,
+-- `login_sends_all` over the model Frp/Model/Rereg.lean of loginFunc / UpdateAllConfigurer.
 
 -- non-vacuity: first session end → immediate; second → a fast retry in [200 ms, 300 ms]
 example :
